@@ -24,6 +24,17 @@ def spec(level, extra_assume=None, run=default_run):
 
 
 TABLE = {
+    "C01": spec("exploration", [
+        "unit exponents are read from the two-byte representation of Unit (field order calibrated against the derived "
+        "Debug output), so the oracle does not rely on the crate's own equality code",
+        "the table of 49 named constants is cross-checked against src/dimensions/constants.rs at run time; names are "
+        "parsed by an independent INVERSE_/PER/SQUARED/CUBED grammar"]),
+    "C14": spec("exploration", [
+        "State::update judged against v+a*dt and p+v*dt+a*dt^2/2 computed in f64 with forward-error bound (bit-exact "
+        "where every evaluation order is exact); dt = 0 compared as values (-0 == +0)"]),
+    "C18": spec("exploration", [
+        "conversion bounds are checked in exact integer arithmetic (i128) on the f32 bit pattern",
+        "integer operators are only exercised on operand pairs that do not overflow i64"]),
     "C06": spec("model_checking", [
         "phase boundaries t1..t3 are read from the derived Debug output of MotionProfile and cross-checked by "
         "bisection on get_piece (public API)",
